@@ -234,6 +234,10 @@ func (it *Interp) cellOf(p Value) *Cell {
 			it.goPanicRuntime("invalid memory address or nil pointer dereference")
 		}
 		it.checkPoison(p)
+		switch p.Ref.(type) {
+		case *typeToken, *ReflVal:
+			it.unsupported("reflect internals reached with a modelled reflect value (an unmodelled reflect function)")
+		}
 		panic(fmt.Sprintf("cellOf: %T", p.Ref))
 	}
 	return c
